@@ -222,6 +222,8 @@ Definition decode (n : nat) (t : list N) (bytes : list N) (len : nat) : option (
   end.
 
 (* ---------- well-formedness of a table, coverage of a payload ---------- *)
+(* the state interval [L, 256 L) *)
+Definition state_ok (x : N) : Prop := RANS_L <= x /\ x < STATE_BOUND.
 Definition wf_table (t : list N) : Prop := sum_list t <= TOTFREQ.
 Definition covers (t : list N) (d : list N) : Prop := Forall (fun s => 0 < freq_of t s) d.
 
